@@ -1,0 +1,24 @@
+//go:build verif
+
+package pebbledb
+
+import (
+	"github.com/cockroachdb/pebble"
+	"github.com/cockroachdb/pebble/vfs"
+)
+
+// VerifFS, when non-nil, is the file system every database opened by
+// NewPebbleScanner uses (verification builds only).
+var VerifFS vfs.FS
+
+// VerifTweak, when non-nil, may adjust the options further (verification builds only).
+var VerifTweak func(*pebble.Options)
+
+func verifPebbleOptions(o *pebble.Options) {
+	if VerifFS != nil {
+		o.FS = VerifFS
+	}
+	if VerifTweak != nil {
+		VerifTweak(o)
+	}
+}
